@@ -79,9 +79,11 @@ func setClientSubnet(req *bfe_basic.Request, dnsMsg *dns.Msg) {
 		cip = req.ClientAddr.IP
 	}
 
+	// IPv4 (including IPv4-mapped IPv6) addresses: family 1, /32; anything else: family 2, /128.
+	// Note: To16() is non-nil for every valid IPv4 address too, so To4() must decide.
 	var family uint16 = 1
 	var sourceNetmask uint8 = 32
-	if cip.To16() != nil {
+	if cip.To4() == nil {
 		family = 2
 		sourceNetmask = 128
 	}
